@@ -248,6 +248,11 @@ func TypesEqual(a, b Type) bool {
 	a = GetUnderlyingType(a)
 	b = GetUnderlyingType(b)
 
+	// e.g. the (invalid) type [null], whose only case is the null type
+	if a == nil || b == nil {
+		return a == nil && b == nil
+	}
+
 	switch ta := a.(type) {
 	case *SimpleType:
 		tb, ok := b.(*SimpleType)
